@@ -56,6 +56,7 @@ type Conf struct {
 	RtspUser, RtspPass              string
 	RecFlv, RecTs                   bool
 	PushAddrs                       []string
+	RtmpsOnly                       bool // rtmp.enable=false, rtmps_enable=true on the RTMP port (self-signed certificate; clients use ref.RtmpOverTLS)
 	FlvHttpsOnly, TsHttpsOnly       bool // httpflv / httpts: enable=false, enable_https=true (served on HttpsAddr with a self-signed certificate)
 	HlsHttpsOnly                    bool // hls.enable=false, hls.enable_https=true (segments are still produced on disk; the https listener has no certificate here)
 	StaticPull                      string
@@ -200,6 +201,15 @@ func start1(c Conf, root string) (*Server, error) {
 	if c.RtspUser == "" {
 		c.RtspUser, c.RtspPass = "q191201771", "pengrl"
 	}
+	rtmpConf := map[string]interface{}{"enable": true, "addr": s.RtmpAddr(), "gop_num": c.RtmpGop, "single_gop_max_frame_num": c.RtmpGopCap, "merge_write_size": c.MergeWrite}
+	if c.RtmpsOnly {
+		certFile, keyFile, err := writeSelfSignedCert(filepath.Join(root, "logs"))
+		if err != nil {
+			return nil, err
+		}
+		rtmpConf["enable"], rtmpConf["addr"] = false, fmt.Sprintf("127.0.0.1:%d", s.Ports.Https)
+		rtmpConf["rtmps_enable"], rtmpConf["rtmps_addr"], rtmpConf["rtmps_cert_file"], rtmpConf["rtmps_key_file"] = true, s.RtmpAddr(), certFile, keyFile
+	}
 	defHttp := map[string]interface{}{"http_listen_addr": s.HttpAddr()}
 	if c.FlvHttpsOnly || c.TsHttpsOnly {
 		certFile, keyFile, err := writeSelfSignedCert(filepath.Join(root, "logs"))
@@ -212,7 +222,7 @@ func start1(c Conf, root string) (*Server, error) {
 	}
 	m := map[string]interface{}{
 		"conf_version": base.ConfVersion,
-		"rtmp": map[string]interface{}{"enable": true, "addr": s.RtmpAddr(), "gop_num": c.RtmpGop, "single_gop_max_frame_num": c.RtmpGopCap, "merge_write_size": c.MergeWrite},
+		"rtmp": rtmpConf,
 		"in_session":   map[string]interface{}{"add_dummy_audio_enable": c.DummyAudio, "add_dummy_audio_wait_audio_ms": c.DummyAudioWaitMs},
 		"default_http": defHttp,
 		"httpflv":      map[string]interface{}{"enable": c.Flv && !c.FlvHttpsOnly, "enable_https": c.Flv && c.FlvHttpsOnly, "url_pattern": "/live/", "gop_num": c.FlvGop, "single_gop_max_frame_num": c.FlvGopCap},
